@@ -43,7 +43,9 @@ fn main() {
                 std::process::exit(2)
             }
         };
-        match avg_verif::fuzzdec::run_target(&target, &data, &[]) {
+        // known findings are tolerated here exactly as in the checks themselves
+        std::env::set_var("VERIF_ROOT", &root);
+        match avg_verif::fuzzdec::run_target(&target, &data, avg_verif::fuzzdec::known_sigs()) {
             None => {
                 println!("fuzz-replay {}: no property failed on this input", file);
                 std::process::exit(0)
